@@ -159,11 +159,17 @@ func Run() string {
 	st2 := st
 	st2.w = 5
 	sb.WriteString("copy=" + itoa(arr[0]) + "," + itoa(cp[0]) + "," + itoa(st.w+st2.w) + ";")
+	// copy between overlapping slices moves as if through a buffer
+	ov := []int{1, 2, 3, 4}
+	copy(ov[1:], ov[:3])
+	ov2 := []int{1, 2, 3, 4}
+	copy(ov2[:3], ov2[1:])
+	sb.WriteString("ovl=" + itoa(ov[0]) + itoa(ov[1]) + itoa(ov[2]) + itoa(ov[3]) + "," + itoa(ov2[0]) + itoa(ov2[1]) + itoa(ov2[2]) + itoa(ov2[3]) + ";")
 	return sb.String()
 }
 `
 
-const machSelfTestWant = "area=24;alias=2,2;runes=xz,xz,cap2;map=abc20;sq=4,7,12;node=9,2,9;div=-1,true,3,false;str=4,10,A,ж;int=4,0,3,-4;copy=1,9,6;"
+const machSelfTestWant = "area=24;alias=2,2;runes=xz,xz,cap2;map=abc20;sq=4,7,12;node=9,2,9;div=-1,true,3,false;str=4,10,A,ж;int=4,0,3,-4;copy=1,9,6;ovl=1123,2344;"
 
 type loadedImporter struct{ c *Ctx }
 
